@@ -120,6 +120,10 @@ impl Property for C11 {
             }
         }
         case.strs.insert("plan".into(), serde_json::to_string(&plan).unwrap());
+        // the uninterrupted and the reordered runs arrive under a seeded delivery plan; the
+        // per-record reference runs are whole-buffer
+        let len = case.stream().len() + case.pieces.len();
+        case.delivery = gen_delivery(rng, len);
         case
     }
 
@@ -138,6 +142,24 @@ impl Property for C11 {
                     ctx.jawk_panic = None;
                     ctx.stats.probe("skipped: a run failed or panicked");
                     return None;
+                }
+                r.obs.stdout
+            }};
+        }
+        macro_rules! delivered_run {
+            ($input:expr) => {{
+                let r = ctx.exec(case_spec(case, $input));
+                if let crate::run::Outcome::Abort(w) = &r.outcome {
+                    return viol("C11.solo-sum", format!("run aborted by the simulator: {w}"));
+                }
+                if !r.outcome.is_ok() {
+                    ctx.stats.invalid = true;
+                    ctx.jawk_panic = None;
+                    ctx.stats.probe("skipped: a run failed or panicked");
+                    return None;
+                }
+                if r.obs.short_reads + r.obs.intr_reads > 0 {
+                    ctx.stats.probe("run delivered in chunks / with EINTR");
                 }
                 r.obs.stdout
             }};
@@ -175,7 +197,7 @@ impl Property for C11 {
                 }
             }
         }
-        let whole = ok_run!(&stream_of(&recs));
+        let whole = delivered_run!(&stream_of(&recs));
         let mut expect = h.clone();
         for b in &bodies {
             expect.extend_from_slice(b);
@@ -228,7 +250,7 @@ impl Property for C11 {
         let identity = plan.len() == n && plan.iter().enumerate().all(|(i, p)| i == *p);
         if !identity && n >= 1 {
             let permuted: Vec<&Piece> = plan.iter().map(|i| recs[*i]).collect();
-            let out = ok_run!(&stream_of(&permuted));
+            let out = delivered_run!(&stream_of(&permuted));
             let mut expect = h.clone();
             for i in &plan {
                 expect.extend_from_slice(&bodies[*i]);
